@@ -8,11 +8,18 @@ equation data assembled from the implementation's own operators (calcM, calcG, b
 its (udot, lambda); the extracted certificate checker (coq/C08/C08_Model.v, OCaml float NumOps) evaluates the residuals of both
 equation blocks and the constraint power; they must vanish within tolerance, and so must the implementation's own reports
 (getUDotErr, calcResidualForce, calcConstraintPower for workless sets with uerr = 0); the masked system must equal the system
-rebuilt without the disabled constraints."""
+rebuilt without the disabled constraints.
+Per-constraint entry points (anchor "calcConstraintPower / Constraint::calcPower" and the accessors C07/C08 rely on), every run:
+sum of Constraint::calcPower = calcConstraintPower = -(dot(F,V)+dot(f,u)) of findConstraintForces; each calcPower = power of the
+constraint's own getConstrainedBodyForcesAsVector / getConstrainedMobilityForcesAsVector = -lambda_c.(G_c u) (model); workless kinds
+report zero power at verr = 0; getMultipliers/Position/Velocity/AccelerationErrorsAsVector are the slices of the system vectors;
+calcConstraintForcesFromMultipliers(own multipliers) reproduces the reported forces; calcPositionConstraintMatrixP/Pt,
+calcVelocityConstraintMatrixVt, calcAccelerationConstraintMatrixAt (and V, A when they return) are the rows of calcG;
+P*NInv*qdot = Pq*qdot = P*u."""
 import os, sys, math, collections
 from vlib import *
 
-PROPS = ['Props/Properties_C08.v']
+PROPS = ['Props/Properties_C08.v', 'Props/Properties_C08b.v']
 EXTRACT = '''From Coq Require Import Extraction ExtrOcamlBasic.
 Require Import Num C08_Model.
 Extraction "c08model.ml" kkt_dyn_residual kkt_con_residual constraint_power.
@@ -27,7 +34,7 @@ def parse(out):
         if not t: continue
         if t[0] == 'CASE':
             cur = {'id': t[1], 'onman': int(t[3]), 'nu': int(t[5]), 'mAll': int(t[7]), 'mA': int(t[9]), 'rank': int(t[11]), 'consistency': float(t[13]),
-                   'workless': int(t[15]), 'nspecs': int(t[17]), 'kinds': t[19:], 'head': line, 'M': [], 'G': [], 'mask': [], 'out': {}}
+                   'workless': int(t[15]), 'nspecs': int(t[17]), 'kinds': t[19:], 'head': line, 'M': [], 'G': [], 'mask': [], 'out': {}, 'pcon': []}
         elif t[0] == 'SKIP': skipped += 1; cur = None
         elif cur is None: continue
         elif t[0] == 'END': cases.append(cur); cur = None
@@ -35,6 +42,14 @@ def parse(out):
         elif t[0] == 'GROW': cur['G'].append(parse_floats(' '.join(t[3:]))); cur['mask'].append(int(t[2]))
         elif t[0] in ('RHS', 'B', 'UDOT', 'LAMFULL', 'U'): cur[t[0]] = parse_floats(' '.join(t[1:]))
         elif t[0] == 'OUT': cur['out'][t[1]] = parse_floats(' '.join(t[2:]))
+        elif t[0] == 'PCON':
+            cur['pcon'].append({'i': int(t[1]), 'kind': int(t[2]), 'name': t[3], 'm': (int(t[4]), int(t[5]), int(t[6])), 'off': (int(t[7]), int(t[8]), int(t[9])), 'mat': collections.defaultdict(dict)})
+        elif t[0] == 'PC' and cur['pcon']:
+            pc = cur['pcon'][-1]
+            if t[1] in ('P', 'PT', 'PNINV', 'PQROW', 'VT', 'V', 'AT', 'A'): pc['mat'][t[1]][int(t[2])] = parse_floats(' '.join(t[3:]))
+            elif t[1] == 'FULLROWS': pc['fullrows'] = [int(x) for x in t[2:]]
+            elif t[1] in ('V_THROWS', 'A_THROWS'): pc[t[1]] = ' '.join(t[2:])
+            else: pc[t[1]] = parse_floats(' '.join(t[2:]))
     return cases, skipped
 
 def norm(v): return math.sqrt(sum(x * x for x in v)) if v else 0.0
@@ -67,6 +82,48 @@ def judge(c, model):
         if len(o['REDUCED_LAM']) != len(o['MASKED_LAM']): bad.append(('disabled: multiplier count differs', abs(len(o['REDUCED_LAM']) - len(o['MASKED_LAM'])), 1))
     return bad
 
+KEY_VA = 'Constraint-calcVelocityConstraintMatrixV-calcAccelerationConstraintMatrixA-unimplemented'
+WORKING_KINDS = (9, 10, 12)      # ConstantSpeed, ConstantAcceleration, SpeedCoupler: not workless unless their constants vanish
+
+def judge_per_constraint(c):
+    """Constraint::calcPower and the per-constraint accessors against the system-level quantities.  -> (bad list, findings list)"""
+    bad = []; findings = []; o = c['out']; n = c['nu']
+    enabledG = [row for row, mk in zip(c['G'], c['mask']) if mk]          # = calcG of the masked state, row by row
+    sc_p = 1.0 + norm(o['GTL']) * norm(c['U'])
+    tot = sum(pc['POWER'][0] for pc in c['pcon'])
+    if abs(tot - o['POWER'][0]) > TOL * sc_p: bad.append(('sum of Constraint::calcPower vs calcConstraintPower', abs(tot - o['POWER'][0]), sc_p))
+    if abs(o['POWER_FROM_FORCES'][0] - o['POWER'][0]) > TOL * sc_p: bad.append(('calcConstraintPower vs -(dot(F,V)+dot(f,u)) of findConstraintForces', abs(o['POWER_FROM_FORCES'][0] - o['POWER'][0]), sc_p))
+    Gu_full = matvec(c['G'], c['U'])
+    for pc in c['pcon']:
+        mp, mv, ma = pc['m']; p0, v0, a0 = pc['off']; nm = pc['name']
+        rows = [p0 + j for j in range(mp)] + [v0 + j for j in range(mv)] + [a0 + j for j in range(ma)]
+        if abs(pc['POWER_FROM_OWN_FORCES'][0] - pc['POWER'][0]) > TOL * sc_p: bad.append(('%s: calcPower vs power of its own body/mobility forces' % nm, abs(pc['POWER_FROM_OWN_FORCES'][0] - pc['POWER'][0]), sc_p))
+        # model: power_c = - lambda_c . (G_c u)
+        pm = -sum(c['LAMFULL'][k] * Gu_full[k] for k in pc['fullrows'])
+        if abs(pm - pc['POWER'][0]) > TOL * sc_p: bad.append(('%s: calcPower vs -lambda_c.(G_c u)' % nm, abs(pm - pc['POWER'][0]), sc_p))
+        if pc['kind'] not in WORKING_KINDS and c['onman'] and norm(pc['VERR']) < 1e-9 and abs(pc['POWER'][0]) > TOL * sc_p:
+            bad.append(('%s: workless constraint reports power at verr = 0' % nm, abs(pc['POWER'][0]), sc_p))
+        if pc['FORCES_FROM_MULT_DIFF'][0] > TOL * pc['FORCES_FROM_MULT_DIFF'][1]: bad.append(('%s: calcConstraintForcesFromMultipliers(own multipliers) vs reported forces' % nm, pc['FORCES_FROM_MULT_DIFF'][0], pc['FORCES_FROM_MULT_DIFF'][1]))
+        # accessors are slices of the system vectors
+        for tag, sysv, idx in (('MULT', o['MULT'], rows), ('AERR', o['UDOTERR'], rows), ('VERR', o['UERR'], rows[:mp + mv]), ('PERR', o['QERR'], rows[:mp])):
+            want = [sysv[k] for k in idx]
+            if len(want) != len(pc[tag]) or any(a != b for a, b in zip(want, pc[tag])): bad.append(('%s: get%sAsVector is not the slice of the system vector' % (nm, tag), 1.0, 1.0))
+        # matrices: P, V, A stacked are the rows of calcG; transposes agree
+        for tag, base, cnt in (('P', p0, mp), ('PT', p0, mp), ('VT', v0, mv), ('V', v0, mv), ('AT', a0, ma), ('A', a0, ma)):
+            for r in range(cnt):
+                row = pc['mat'].get(tag, {}).get(r)
+                if row is None: continue
+                g = enabledG[base + r]; scg = 1.0 + norm(g); d = norm([x - y for x, y in zip(row, g)])
+                if d > TOL * scg: bad.append(('%s: calc...Matrix%s row %d vs calcG row' % (nm, tag, r), d, scg))
+        for r in range(mp):      # Pq = P N^+ is determined only on the tangent space of the quaternion norms (calcPq leaves a directly constrained
+            # quaternion component unprojected, P*N^-1 projects it): compare P N^-1 qdot = Pq qdot = P u for the tangent qdot = N u
+            a = sum(x * y for x, y in zip(pc['mat']['PNINV'][r], o['QDOT'])); b = sum(x * y for x, y in zip(pc['mat']['PQROW'][r], o['QDOT']))
+            pu = sum(x * y for x, y in zip(pc['mat']['P'][r], c['U'])); scq = 1.0 + abs(pu) + norm(pc['mat']['PQROW'][r]) * norm(o['QDOT'])
+            if abs(a - b) > TOL * scq or abs(a - pu) > TOL * scq: bad.append(('%s: P*NInv*qdot, Pq*qdot, P*u disagree (row %d)' % (nm, r), max(abs(a - b), abs(a - pu)), scq))
+        for tag in ('V_THROWS', 'A_THROWS'):
+            if tag in pc: findings.append((nm, tag, pc[tag]))
+    return bad, findings
+
 def build_sides(ctx):
     exe = ctx.bdir('C08_fdyn')
     if not ctx.cxx(os.path.join(VERIF, 'harness', 'C08_fdyn.cpp'), exe):
@@ -95,7 +152,7 @@ def certificate(ctx, exes, ncases, seed_offset=0):
             models[t[1]] = {p[0]: parse_floats(' '.join(p[1:])) for p in parts if p}
     if len(models) != len(cases):
         ctx.broken.append(('ocaml:C08_drv', 'driver produced %d results for %d cases %s' % (len(models), len(cases), err[-300:]))); return
-    judged = 0; incons = 0; fails = []; hist = collections.Counter(); worst = collections.defaultdict(float); nred = 0; nmask = 0
+    judged = 0; incons = 0; fails = []; hist = collections.Counter(); worst = collections.defaultdict(float); nred = 0; nmask = 0; va_findings = []; npc = 0
     for c in cases:
         if c['consistency'] > CONSIST: incons += 1; continue
         judged += 1
@@ -104,6 +161,7 @@ def certificate(ctx, exes, ncases, seed_offset=0):
         if c['onman']: hist['on-manifold'] += 1
         for kd in c['kinds']: hist[kd.split('(')[0]] += 1
         bad = judge(c, models[c['id']])
+        b2, fnd = judge_per_constraint(c); bad += b2; va_findings += fnd; npc += len(c['pcon'])
         for what, v, sc in bad: fails.append((c, what, v, sc))
         m = models[c['id']]; n = c['nu']
         worst['newton'] = max(worst['newton'], norm(m['DYN'])); worst['constraint'] = max(worst['constraint'], norm(m['CON']))
@@ -115,6 +173,12 @@ def certificate(ctx, exes, ncases, seed_offset=0):
     e['worst_model_residuals'] = dict(worst); e['tol_relative'] = TOL
     if judged == 0 or incons + skipped > 0.25 * max(1, len(cases) + skipped):
         ctx.broken.append(('generator:C08', 'too few judged cases: judged %d, inconsistent %d, skipped %d' % (judged, incons, skipped)))
+    e['per_constraint_blocks_checked'] = e.get('per_constraint_blocks_checked', 0) + npc
+    if va_findings:
+        e['V_or_A_matrix_throws'] = e.get('V_or_A_matrix_throws', 0) + len(va_findings)
+        nm, tag, msg = va_findings[0]
+        ctx.report(KEY_VA, 'Constraint::calc%sConstraintMatrix%s throws for %s: %s' % ('Velocity' if tag[0] == 'V' else 'Acceleration', tag[0], nm, msg),
+                   {'replay_cmd': '%s %d %d' % (exe, ctx.seed + seed_offset, ncases), 'constraint': nm, 'message': msg})
     for c, what, v, sc in fails[:1]:
         ctx.broken.append(('certificate:' + what.split('(')[0], '%s = %.3g (scale %.3g) on %s (%d failing checks in %d cases)' % (what, v, sc, c['head'], len(fails), judged)))
         ctx.report('impl:' + what.split('(')[0].replace(' ', '-'), 'C08 certificate fails on the implementation: %s = %.3g (scale %.3g) on %s' % (what, v, sc, c['head']),
@@ -131,7 +195,8 @@ def run(ctx):
                        '<= 7 rows; exact duplicates and Ball-at-the-Weld-points as redundant members), random enable masks, gravity + constant body forces/torques + mobility forces, random states '
                        '(every other case projected: qerr = uerr = 0); only sets whose enabled acceleration equations are consistent (least-squares residual <= 1e-9) are judged; '
                        'non-trivial = redundant (rank-deficient G) or with disabled constraints; tolerance 1e-8 relative to the size of the terms')
-    ctx.assumptions += ['PARTIAL: uniqueness theorem + certificate check; the pseudo-inverse\'s choice among equivalent lambda for redundant sets is not modelled (only udot and G^T lambda are determined; lambda is refuted to be unique)',
+    ctx.assumptions += ['Pq is compared on the tangent space of the quaternion norm constraints only (calcPq leaves a directly constrained quaternion component unprojected, P*N^-1 projects it; both give the same Pq*qdot for qdot = N u)',
+                        'PARTIAL: uniqueness theorem + certificate check; the pseudo-inverse\'s choice among equivalent lambda for redundant sets is not modelled (only udot and G^T lambda are determined; lambda is refuted to be unique)',
                         'theorems are over the reals; the certificate residuals are evaluated in binary64 with a relative tolerance',
                         'M, G, the bias b and rhs = f_applied - f_inertial are the implementation\'s own (calcM, calcG, calcConstraintAccelerationErrors(0), calcResidualForceIgnoringConstraints(0)); their correctness is C01/C02/C07',
                         'positive definiteness of M is C01; the theorem takes it as a hypothesis']
